@@ -91,6 +91,24 @@ pub fn rename_in_cons(
     }
 }
 
+/// Rename the names of a parameter list or binding pattern.  Unlike code, a
+/// pattern has no quoted parts: a parameter called q (or quote, or qq) is a name
+/// like any other, wherever it stands in the list.
+fn rename_in_pattern(namemap: &HashMap<Vec<u8>, Vec<u8>>, pattern: Rc<SExp>) -> Rc<SExp> {
+    match pattern.borrow() {
+        SExp::Atom(l, name) => match namemap.get(name) {
+            Some(v) => Rc::new(SExp::Atom(l.clone(), v.to_vec())),
+            None => pattern,
+        },
+        SExp::Cons(l, f, r) => Rc::new(SExp::Cons(
+            l.clone(),
+            rename_in_pattern(namemap, f.clone()),
+            rename_in_pattern(namemap, r.clone()),
+        )),
+        _ => pattern,
+    }
+}
+
 /* Returns a list of pairs containing the old and new atom names */
 fn invent_new_names_sexp(body: Rc<SExp>) -> Vec<(Vec<u8>, Vec<u8>)> {
     match body.borrow() {
@@ -141,7 +159,7 @@ fn make_binding_unique(b: &Binding) -> InnerRenameList {
                 new_names.insert(n.clone(), v.clone());
             }
 
-            let renamed_pattern = rename_in_cons(&new_names, pat.clone(), false);
+            let renamed_pattern = rename_in_pattern(&new_names, pat.clone());
             InnerRenameList {
                 bindings: new_names,
                 from_wing: Binding {
@@ -174,7 +192,7 @@ pub fn rename_assign_bindings(
 
                 let renamed_in_body = Rc::new(rename_args_bodyform(b.body.borrow())?);
                 Ok(Rc::new(Binding {
-                    pattern: BindingPattern::Complex(rename_in_cons(&renames, p.clone(), false)),
+                    pattern: BindingPattern::Complex(rename_in_pattern(&renames, p.clone())),
                     body: Rc::new(rename_in_bodyform(&renames, renamed_in_body)?),
                     ..b.clone()
                 }))
@@ -257,8 +275,7 @@ fn rename_in_bodyform(
         BodyForm::Lambda(ldata) => {
             let renamed_capture_inputs =
                 Rc::new(rename_in_bodyform(namemap, ldata.captures.clone())?);
-            let renamed_capture_outputs =
-                rename_in_cons(namemap, ldata.capture_args.clone(), false);
+            let renamed_capture_outputs = rename_in_pattern(namemap, ldata.capture_args.clone());
             let renamed_body = Rc::new(rename_args_bodyform(ldata.body.borrow())?);
             let outer_renamed_body = rename_in_bodyform(namemap, renamed_body)?;
             Ok(BodyForm::Lambda(Box::new(LambdaData {
@@ -438,7 +455,7 @@ pub fn rename_args_helperform(h: &HelperForm) -> Result<HelperForm, CompileErr> 
             for x in new_names.iter() {
                 local_namemap.insert(x.0.to_vec(), x.1.to_vec());
             }
-            let local_renamed_arg = rename_in_cons(&local_namemap, mac.args.clone(), true);
+            let local_renamed_arg = rename_in_pattern(&local_namemap, mac.args.clone());
             let local_renamed_body = rename_args_compileform(mac.program.borrow())?;
             Ok(HelperForm::Defmacro(DefmacData {
                 args: local_renamed_arg,
@@ -455,7 +472,7 @@ pub fn rename_args_helperform(h: &HelperForm) -> Result<HelperForm, CompileErr> 
             for x in new_names.iter() {
                 local_namemap.insert(x.0.clone(), x.1.clone());
             }
-            let local_renamed_arg = rename_in_cons(&local_namemap, defun.args.clone(), true);
+            let local_renamed_arg = rename_in_pattern(&local_namemap, defun.args.clone());
             let local_renamed_body = rename_args_bodyform(defun.body.borrow())?;
             Ok(HelperForm::Defun(
                 *inline,
@@ -508,7 +525,7 @@ pub fn rename_args_compileform(c: &CompileForm) -> Result<CompileForm, CompileEr
     for x in new_names.iter() {
         local_namemap.insert(x.0.clone(), x.1.clone());
     }
-    let local_renamed_arg = rename_in_cons(&local_namemap, c.args.clone(), true);
+    let local_renamed_arg = rename_in_pattern(&local_namemap, c.args.clone());
     let local_renamed_helpers: Vec<HelperForm> = map_m(&rename_args_helperform, &c.helpers)?;
     let local_renamed_body = rename_args_bodyform(c.exp.borrow())?;
     Ok(CompileForm {
